@@ -545,6 +545,9 @@ def gamma5(tier, seed):
     T("reg/genreg/upper_8L", [{"mov": ["&genreg.64"]}, {"add": ["&genreg.8L"]}], ["&genreg"], {"&genreg": list("abcd")}, "cap_register_upper_suffix", domain="regs", lemmas=("AEM",), pattern=[{"mov": ["&genreg.64"]}, {"add": ["&genreg.8l"]}])
     # register capture inside a $deref
     T("reg/in_deref", [{"mov": ["&genreg.64"]}, {"add": [{"$deref": {"main_reg": "&genreg.64", "constant_offset": "0x8"}}]}], ["&genreg"], {"&genreg": list("abcd")}, "cap_register_in_deref", lemmas=("AEM",), domain="att_mem_regs")
+    # the order of the keys in the $deref mapping is irrelevant, also when the fields DEFINE captures
+    T("reg/first_in_deref_key_order", [{"mov": [{"$deref": {"constant_multiplier": 4, "register_multiplier": "&indreg.64", "main_reg": "&genreg.64"}}]}, {"add": ["&genreg.32", "&indreg.16"]}], ["&genreg", "&indreg"], {"&genreg": list("abcd"), "&indreg": ["s", "d"]}, "cap_register_in_deref_key_order", lemmas=("AEM",), domain="att_mem_regs")
+    T("reg/first_in_deref_key_order2", [{"mov": [{"$deref": {"register_multiplier": "&indreg.64", "main_reg": "&genreg.64", "constant_multiplier": 4}}]}, {"add": ["&indreg.16"]}, {"sub": ["&genreg.32"]}], ["&genreg", "&indreg"], {"&genreg": list("abcd"), "&indreg": ["s", "d"]}, "cap_register_in_deref_key_order", lemmas=("AEM",), domain="att_mem_regs")
     T("reg/first_in_deref", [{"mov": [{"$deref": {"main_reg": "&genreg.64", "register_multiplier": "&indreg.64", "constant_multiplier": 4}}]}, {"add": ["&genreg.32", "&indreg.16"]}], ["&genreg", "&indreg"], {"&genreg": list("abcd"), "&indreg": ["s", "d"]}, "cap_register_in_deref", lemmas=("AEM",), domain="att_mem_regs")
     return out
 
